@@ -48,7 +48,11 @@ func (rc *CRespCodec) Decode(c CConn) (*Msg, error) {
 
 	line, err := buf.ReadLine()
 	if err != nil {
-		return nil, errors.ErrIncompletePacket
+		if err == codec.ErrLFNotFound {
+			return nil, errors.ErrIncompletePacket
+		}
+		// a terminated line which is not a RESP line never becomes one
+		return nil, codec.ErrInvalidResp
 	}
 
 	msgId++
@@ -283,9 +287,15 @@ func (rc *CRespCodec) MSet(resp *Msg) {
 }
 
 func (rc *CRespCodec) parseLine(buf *codec.Buffer) ([]byte, error) {
+	if buf.ReadSize() == buf.TotalSize() {
+		return nil, codec.EmptyLine
+	}
 	line, err := buf.ReadLine()
 	if err != nil {
-		return nil, err
+		if err == codec.ErrLFNotFound {
+			return nil, err
+		}
+		return nil, codec.ErrInvalidResp
 	}
 	switch line[0] {
 	case '$':
